@@ -165,6 +165,7 @@ pub proof fn lemma_rt_createnode(r: SR)
         SR::CreateNode { external_id, label_id, internal_id } => {
             lemma_le64_roundtrip(external_id); lemma_le32_roundtrip(label_id); lemma_le32_roundtrip(internal_id);
             assert(p =~= le64(external_id) + le32(label_id) + le32(internal_id));
+            assert(b[0] == 5u8 && p.len() == 16);
             assert(p.subrange(0, 8) =~= le64(external_id));
             assert(p.subrange(8, 12) =~= le32(label_id));
             assert(p.subrange(12, 16) =~= le32(internal_id));
